@@ -97,11 +97,13 @@ _FF = {'VERIF_FINITE_FLOATS': '1'}
 PROPS['C13'] = dict(
     level='model_checking',
     encoded=['GridSearchDesigner.__init__/suggest/dump/load/_maybe_shuffled_grid_values', 'pyvizier.Metadata.ns/__setitem__/__getitem__',
-             'ParameterDict', 'TrialSuggestion'],
+             'ParameterDict', 'TrialSuggestion', 'EagleStrategyDesigner.suggest/update/dump/load (+ serialization, FireflyPool)',
+             'NSGA2Designer / CanonicalEvolutionDesigner.suggest/update/dump/load', 'metadata_util.make_key_value_list/'
+             'merge_study_metadata/from_key_value_list'],
     bounds='grid: 2-3 parameters, radices 1..3, _current_index any int >= 0 (arithmetic) / 0..12 (dump-load string hop), '
            'batch sizes 1..3, shuffle seeds 0..3',
-    outside='eagle, NSGA-II, CMA-ES state (numpy arrays, RNG bit-generator state); '
-            'DOUBLE grid axes (numpy linspace)',
+    outside='CMA-ES; NSGA-II RNG stream after a restart (the property asks for population, phase and counters); eagle/NSGA-II '
+            'on spaces and schedules other than the listed ones; DOUBLE grid axes (numpy linspace)',
     assumptions=['random.Random(seed).shuffle executed natively (seed concrete per branch)'],
     obligations=[
         O('C13.grid_bijection', 'harness.c13_grid', 'grid_bijection', 120, 600,
@@ -122,6 +124,20 @@ PROPS['C13'] = dict(
         O('C13.grid_shuffled_restart', 'harness.c13_grid', 'grid_shuffled_restart', 200, 900,
           'shuffled grid: load() restores the shuffle order from metadata; period = grid size',
           'seeds 0..3, radices 2..3, index 0..9'),
+        O('C13.eagle_restart', 'harness.c13_evolution', 'eagle_restart_quick', 240, None,
+          'eagle strategy: a twin restarted (dump -> wire -> new instance -> load) before a chosen subset of 8 rounds makes '
+          'the same suggestions as the instance kept alive and ends with the same persisted state, also when trials are '
+          'reported out of id order and a round late', '2 seeds x batch 3/5 x 4 completion patterns x 6 restart subsets',
+          no_validate=True),
+        O('C13.nsga2_restart', 'harness.c13_evolution', 'nsga2_restart', 300, 900,
+          'NSGA-II: fed the same history, the restarted twin has the same population, phase and trial counter as the '
+          'instance kept alive, at every round', '2 spaces x 2 seeds x batch 2/3/5 x 4 completion patterns x 6 restart subsets',
+          no_validate=True),
+    ] + [
+        O('C13.eagle_restart_all_s%d' % k, 'harness.c13_evolution', 'eagle_restart', None, 1500,
+          'eagle strategy restart equivalence for EVERY subset of the 8 rounds', 'seed %d x batch 2/3/5 x 4 patterns x 256 '
+          'restart subsets' % k, env={'VERIF_SLICE': str(k)}, no_validate=True)
+        for k in range(3)
     ])
 
 PROPS['C03'] = dict(
